@@ -188,6 +188,36 @@ func (s *fstate) killX(root types.Object, path []string, viaCall bool) *fstate {
 	return n
 }
 
+// forgetCall drops every fact that mentions the call term (its outcome, its results, classifications of its error);
+// event facts stay.
+func (s *fstate) forgetCall(call *Term) *fstate {
+	ck := call.Key()
+	var n *fstate
+	for k, f := range s.facts {
+		if f.S == "called" || strings.HasPrefix(f.S, "did") || f.S == "orig" {
+			continue
+		}
+		hit := false
+		f.walk(func(x *Term) bool {
+			if (x.K == "call" || x.K == "mcall") && x.Key() == ck {
+				hit = true
+			}
+			return !hit
+		})
+		if hit {
+			if n == nil {
+				n = s.clone()
+			}
+			delete(n.facts, k)
+		}
+	}
+	if n == nil {
+		return s
+	}
+	n.key = ""
+	return n
+}
+
 func (s *fstate) trail() []string {
 	var out []string
 	for x := s; x != nil; x = x.from {
@@ -1429,6 +1459,13 @@ func (f *e1func) transfer(st *fstate, n ast.Node, sites *[]*e1site) []*fstate {
 		for _, l := range s.Lhs {
 			lhs = append(lhs, f.lhsTerm(l))
 		}
+		// the same status-returning call evaluated again (a retry, a second attempt after a fallback): what the state knows
+		// about the outcome of the earlier evaluation does not describe this one.  Events (called / did*) stay.
+		if len(rhs) == 1 && (rhs[0].K == "call" || rhs[0].K == "mcall") {
+			if idx, _, _ := f.callStatusIdx(s.Rhs[0]); idx >= 0 && (st.has(fact("ok", rhs[0])) || st.has(fact("fail", rhs[0]))) {
+				st = st.forgetCall(rhs[0])
+			}
+		}
 		// x, y, ok = f(x): inside the call, x names the value *before* the assignment.  Spell the call with that old value
 		// (the variable's definition, or an opaque "old x") and re-key what the state knows about the call, so that the
 		// outcome of an interpreted helper survives the rebinding of its own argument.
@@ -2592,7 +2629,12 @@ func (f *e1func) statusFacts(st *fstate, x ast.Expr, xt *Term, isNil bool) []*Te
 	if isNil {
 		return f.okFacts(st, call, true)
 	}
-	return append([]*Term{fact("fail", call)}, f.failGuarFacts(call)...)
+	out := append([]*Term{fact("fail", call)}, f.failGuarFacts(call)...)
+	if call.K == "mcall" {
+		// the outcome as an event: "that method failed on this path" (survives a later re-evaluation of the same call)
+		out = append(out, fact("didFail", mk("const", call.S)))
+	}
+	return out
 }
 
 // ---------------------------------------------------------------------------------------------
